@@ -206,6 +206,15 @@ public:
   }
   void stop() override
   {
+    // Serialize concurrent callers: the loser of the CAS below must not return
+    // while the winner is still joining the I/O thread, or callbacks would keep
+    // running after its stop() has returned. (A call made on the I/O thread
+    // itself, from inside a callback, never waits: it would block the join.)
+    std::unique_lock<std::mutex> stopLock(_stopMutex, std::defer_lock);
+    if (std::this_thread::get_id() != _loop.get_id())
+    {
+      stopLock.lock();
+    }
     bool exp = true;
     if (!_running.compare_exchange_strong(exp, false))
       return;
@@ -1727,6 +1736,7 @@ private:
   // without revisiting this invariant.
   int _epollFd{-1}, _eventFd{-1}, _timerFd{-1};
   std::thread _loop;
+  std::mutex _stopMutex; // serializes concurrent stop() calls
   // Deferred self-destruct deleter (delete-this-at-thread-end). Written/read
   // ONLY on the I/O thread (set pre-detach, run post-loop()); no synchronization.
   std::function<void()> _selfDestruct;
